@@ -110,7 +110,7 @@ package message
 //@   pure
 //@   inline
 //@   ensures result != nil [never-nil]
-//@   ensures m.ctx != nil ==> result == m.ctx [own-context]
+//@   ensures result == ctxOf(m) [own-context-or-background]
 
 //@ func (*Message).SetContext
 //@   requires m != nil
@@ -118,9 +118,13 @@ package message
 //@   ensures m.ctx == ctx [set]
 //@   modifies m.ctx
 
+//@ spec stamped(h *handler, c context.Context) bool := c != nil && (h.name != "" ==> ctxstr(c, handlerNameKey) == h.name) && (h.publisherName != "" ==> ctxstr(c, publisherNameKey) == h.publisherName) && (h.subscriberName != "" ==> ctxstr(c, subscriberNameKey) == h.subscriberName) && (h.subscribeTopic != "" ==> ctxstr(c, subscribeTopicKey) == h.subscribeTopic) && (h.publishTopic != "" ==> ctxstr(c, publishTopicKey) == h.publishTopic)
+
 //@ func (*handler).addHandlerContext
 //@   requires h != nil
 //@   maypanic
+//@   ensures forall j int :: 0 <= j && j < len(messages) ==> stamped(h, messages[j].ctx) [every-message-stamped]
+//@   inv loop 1: forall j int :: 0 <= j && j <= rangeindex ==> stamped(h, messages[j].ctx) [processed-are-stamped]
 //@   modifies field(Message.ctx)
 
 //@ func (disabledPublisher).Publish
@@ -146,5 +150,48 @@ package message
 //@   ensures handlerFailed(old(calls(H))) || publishFailed(old(calls(P)), calls(P)) || (len(ret(H, 0, old(calls(H)))) > 0 && h.publisher == nil) ==> ncalls("(*Message).Nack") == old(ncalls("(*Message).Nack")) + 1 && ncalls("(*Message).Ack") == old(ncalls("(*Message).Ack")) [nack-on-failure]
 //@   ensures ncalls("(*Message).Ack") == old(ncalls("(*Message).Ack")) + 1 ==> !handlerFailed(old(calls(H))) && !publishFailed(old(calls(P)), calls(P)) && ncalls("(*Message).Nack") == old(ncalls("(*Message).Nack")) [ack-only-on-success]
 //@   ensures ncalls("(*Message).Ack") + ncalls("(*Message).Nack") == old(ncalls("(*Message).Ack") + ncalls("(*Message).Nack")) + 1 [router-settles-exactly-once]
+//@   ensures calls(P) == old(calls(P)) + 1 ==> (forall j int :: 0 <= j && j < len(arg(P, 1, old(calls(P)))) ==> stamped(h, arg(P, 1, old(calls(P)))[j].ctx)) [outputs-carry-handler-context]
 //@   ensures wgtoken(h.runningHandlersWg) == 0 [done-once]
 //@   assert @call:(*Message).Ack: !handlerFailed(calls(H) - 1) && (len(ret(H, 0, calls(H) - 1)) == 0 || (calls(P) >= 1 && !panicked(P, calls(P) - 1) && ret(P, 0, calls(P) - 1) == nil)) [ack-after-successful-publish]
+
+// ---- router context values (C08, used by C13) ----
+
+//@ spec ctxval(ctx context.Context, key any) any
+//@ spec background() context.Context
+//@ spec ctxstr(ctx context.Context, key ctxKey) string := isstring(ctxval(ctx, boxed(key))) ? unboxstring(ctxval(ctx, boxed(key))) : ""
+//@ spec ctxOf(m *Message) context.Context := m.ctx != nil ? m.ctx : background()
+
+//@ func valFromCtx
+//@   requires ctx != nil
+//@   nopanic
+//@   ensures result == ctxstr(ctx, key) [reads-the-key]
+
+//@ func HandlerNameFromCtx
+//@   requires ctx != nil
+//@   nopanic
+//@   pure
+//@   ensures result == ctxstr(ctx, handlerNameKey)
+
+//@ func PublisherNameFromCtx
+//@   requires ctx != nil
+//@   nopanic
+//@   pure
+//@   ensures result == ctxstr(ctx, publisherNameKey)
+
+//@ func SubscriberNameFromCtx
+//@   requires ctx != nil
+//@   nopanic
+//@   pure
+//@   ensures result == ctxstr(ctx, subscriberNameKey)
+
+//@ func SubscribeTopicFromCtx
+//@   requires ctx != nil
+//@   nopanic
+//@   pure
+//@   ensures result == ctxstr(ctx, subscribeTopicKey)
+
+//@ func PublishTopicFromCtx
+//@   requires ctx != nil
+//@   nopanic
+//@   pure
+//@   ensures result == ctxstr(ctx, publishTopicKey)
